@@ -49,7 +49,12 @@ def run_history(spec, y_full, n0, steps, case, shift=0):
 
     def fh_for(c):
         if absolute:
-            return ForecastingHorizon([c + h for h in steps], is_relative=False)
+            hs = [c + h for h in steps]
+            if case["fh_kind"].endswith("_shuffled"):
+                hs = hs[1:][::-1] + hs[:1] if len(hs) > 2 else hs[::-1]
+            if "index" in case["fh_kind"]:
+                return ForecastingHorizon(pd.Index(np.array(hs, dtype="int64")), is_relative=False)
+            return ForecastingHorizon(hs, is_relative=False)
         return gen.build_fh(steps, case["fh_kind"])
 
     r = sut(f.fit, y0.copy(), None, fh_for(cutoff) if need_fit else None)
@@ -220,7 +225,7 @@ def cases(draw, depth=2, cheap=False):
         "start": start, "index_kind": draw(gen.index_kind),
         "fh_mode": draw(st.sampled_from(["rel", "rel", "abs"])),
         "fh_when": draw(st.sampled_from(["fit", "predict"])),
-        "fh_kind": draw(st.sampled_from(["list", "array", "fh", "int"])),
+        "fh_kind": draw(st.sampled_from(["list", "array", "fh", "int", "index", "range", "list_shuffled", "array_shuffled", "index_shuffled", "fh_index_shuffled"])),
         "repeat_fh": draw(st.booleans()), "int_dtype": draw(st.integers(0, 4)) == 0,
         "update_params": draw(st.lists(st.sampled_from([True, True, False]), min_size=1, max_size=3)),
         "revision": draw(st.one_of(st.none(), st.none(), st.tuples(st.integers(1, 3), st.integers(1, 4)))),
